@@ -545,6 +545,11 @@ class LibMixin:
                   "datetime.datetime.fromtimestamp": _dt.datetime.fromtimestamp,
                   "datetime.datetime.fromisoformat": _dt.datetime.fromisoformat,
                   "int.from_bytes": int.from_bytes, "str.isidentifier": str.isidentifier, "bytes.fromhex": bytes.fromhex}
+        if name == "itertools.count" and len(args) <= 2 and not kwargs:
+            start = args[0] if args else 0
+            step = args[1] if len(args) > 1 else 1
+            if isinstance(start, int) and isinstance(step, int) and step > 0:
+                return range(start, start + step * 100_000, step)  # unbounded counter; a loop that exhausts it is reported as a limit
         if name in native:
             a2 = [self.to_native(a, node) for a in args]
             k2 = {k: self.to_native(v, node) for k, v in kwargs.items()}
@@ -641,6 +646,21 @@ class LibMixin:
         if len(a) == 1:
             seq = self.iterate(a[0], run, node)
             if seq is None:
+                src = a[0]
+                if isinstance(src, ListV):
+                    src = Sym(("tuple", kterm(src)), "tuple", weak_list=src, elem_values=list(src.items) + list(src.may or []))
+                if isinstance(src, Sym) and isinstance(src.info.get("weak_list"), Sym):
+                    src = src.info["weak_list"]
+                vals = src.info.get("elem_values") if isinstance(src, Sym) else None
+                if vals and len(vals) == 1 and isinstance(vals[0], Sym) and "key" not in kw:
+                    # max()/min() of a sequence with a symbolic number of items: the empty case raises unless a default is given
+                    if "default" not in kw:
+                        nonempty = run.decide(("nonempty", src.term), self.site(node))
+                        if not nonempty:
+                            run.emit("raise-site", "ValueError", self.site(node), f"{which}() of a sequence that may be empty")
+                            self.throw("ValueError", f"{which}() arg is an empty sequence", node)
+                    v = vals[0]
+                    return Sym((which, src.term), v.kind, **{k: x for k, x in v.info.items() if k not in ("bv",)})
                 return self.sym_call_lib(which, a, kw, run, node)
         else:
             seq = list(a)
